@@ -292,7 +292,10 @@ func (r *run) exec(i int, op Op, or *OpRes) {
 				opts = append(opts, dig.Export(op.Export))
 			}
 		}
-		if op.hasOpt("loc") {
+		if op.hasOpt("loc") && op.Loc == 0 {
+			// an address that belongs to no function: dig falls back to the constructor's own location
+			opts = append(opts, dig.LocationForPC(1))
+		} else if op.hasOpt("loc") {
 			lf, ok := r.fns[op.Loc]
 			if !ok || lf.unbuildable || lf.value == nil || reflect.ValueOf(lf.value).Kind() != reflect.Func {
 				panic(badTypes{fmt.Sprintf("op %d: loc %d is not a function of the program", i, op.Loc)})
